@@ -33,6 +33,7 @@ type Exec struct {
 	S    *Specs
 	D    *Decls
 	Prop string // property filter for clauses ("" = all)
+	ghostWriters map[string]map[string]bool // model field -> contracts that may write it
 	immCells map[string]Val // address term of a write-once cell (parameter captured by a closure, never reassigned) -> its value
 	Mode string // "contract" | "sweep"
 
